@@ -539,7 +539,7 @@ func (m *M) check(b, route string, a Args, pre *snapshot, r *world.Result) {
 	}
 
 	// ---------------- C08: the access middleware -------------------------------------------------
-	if route == "prot" && r.Panic == "" {
+	if route == "prot" && r.Panic == "" && !cfg.ExpireMW { // (with the expiry middleware in front, what the access middleware sees is C09's subject)
 		_, half := pre.sess["halfauth"]
 		_, twofa := pre.sess["twofactor"]
 		reqOK := !(a.Reqs&1 == 1 && half) && !(a.Reqs&2 == 2 && !twofa)
